@@ -10,7 +10,9 @@ import (
 	"github.com/zenon-network/go-zenon/common"
 	"github.com/zenon-network/go-zenon/common/types"
 	"github.com/zenon-network/go-zenon/verifier"
+	"github.com/zenon-network/go-zenon/vm"
 	"github.com/zenon-network/go-zenon/vm/constants"
+	"github.com/zenon-network/go-zenon/vm/vm_context"
 	"github.com/zenon-network/go-zenon/vm/embedded/definition"
 )
 
@@ -267,14 +269,166 @@ func (pr *plasmaRun) handBlock(acc types.Address, kind int) (*nom.AccountBlock, 
 		b.BlockType = nom.BlockTypeUserSend
 		b.ToAddress = types.PillarContract
 		b.Data = definition.ABIPillars.PackMethodPanic(definition.DelegateMethodName, g.Pillar1Name)
+	case kind >= handDestKind0:
+		// directed: destination x data length (handDestMatrix)
+		k := kind - handDestKind0
+		b.BlockType = nom.BlockTypeUserSend
+		b.TokenStandard = types.ZnnTokenStandard
+		b.ToAddress = handDest(acc, k/len(handDataLens))
+		b.Data = make([]byte, handDataLens[k%len(handDataLens)])
+		pr.c.R.Read(b.Data)
 	default:
 		b.BlockType = nom.BlockTypeUserSend
-		b.ToAddress = g.User2.Address
+		// the destination of a plain send: an ordinary account, the zero address ("ToAddress can be null"), the sender itself
+		b.ToAddress = handDest(acc, []int{0, 0, 1, 2}[pr.c.R.Intn(4)])
 		b.TokenStandard = types.ZnnTokenStandard
 		b.Data = make([]byte, []int{0, 0, 1, 7, 100}[pr.c.R.Intn(5)])
 		pr.c.R.Read(b.Data)
 	}
 	return b, prev
+}
+
+// destinations of plain sends (the base cost of a send that calls no embedded method depends on its data length only)
+const handDestKind0 = 100
+
+var handDestNames = []string{"ordinary", "zero-address", "own-address"}
+var handDataLens = []int{0, 1, 7, 1000, constants.MaxDataLength - 1, constants.MaxDataLength, constants.MaxDataLength + 1}
+
+func handDest(acc types.Address, i int) types.Address {
+	switch i {
+	case 1:
+		return types.ZeroAddress
+	case 2:
+		return acc
+	}
+	if acc == g.User2.Address {
+		return g.User3.Address
+	}
+	return g.User2.Address
+}
+
+// handDestMatrix: hand-built plain sends of acc over destination {ordinary, zero address, own address} x data length
+// {0, 1, 7, 1000, 16 KiB-1, 16 KiB, 16 KiB+1}, each first with one plasma unit less than the base cost of its type and data
+// length (must be refused), then with exactly the base cost; `round` selects which data lengths this call tries (all
+// destinations every time). The monitor of hand() judges every accepted block. newMomentum is called after an accepted
+// block that used up more than half of the account's plasma.
+func (pr *plasmaRun) handDestMatrix(acc types.Address, round int, newMomentum func() bool) {
+	none := plasmaPowChoices[0]
+	for d := range handDestNames {
+		for j := 0; j < 3; j++ {
+			li := (round + d + 3*j) % len(handDataLens)
+			if j == 0 {
+				li = 3 // 1000 bytes in every history
+			}
+			kind := handDestKind0 + d*len(handDataLens) + li
+			if pr.hand(acc, kind, none, "needed-1") {
+				pr.c.Hit("hand-dest-accepted-below-base:" + handDestNames[d])
+			}
+			if pr.hand(acc, kind, none, "needed") {
+				pr.c.Hit(fmt.Sprintf("hand-dest-accepted:%s:%d", handDestNames[d], handDataLens[li]))
+				if handDataLens[li] > 5000 && !newMomentum() {
+					return
+				}
+			} else {
+				pr.c.Hit(fmt.Sprintf("hand-dest-refused:%s:%d", handDestNames[d], handDataLens[li]))
+			}
+		}
+	}
+}
+
+// baseMatrix: vm.GetBasePlasmaForAccountBlock itself over block type {send, receive} x destination {ordinary, zero address,
+// own address, unknown address, every embedded contract with the selector of one of its methods} x data length {0, 1, 7,
+// 1000, 16 KiB-1, 16 KiB, 16 KiB+1} for blocks of acc on its frontier: one plasma-base line each (type, cost of the called
+// method or -, data length | the node's answer), recomputed by the Lean model basePlasmaChecked; monitor: the answer is the
+// base cost the property names - by type, called method and data length only.
+func (pr *plasmaRun) baseMatrix(acc types.Address) {
+	c, n := pr.c, pr.n
+	ch := n.Chain()
+	fm, err := ch.GetFrontierMomentumStore().GetFrontierMomentum()
+	if err != nil {
+		return
+	}
+	ma := fm.Identifier()
+	prev := ch.GetFrontierAccountStore(acc).Identifier()
+	var ctx vm_context.AccountVmContext
+	if p := safely(func() {
+		ctx = vm_context.NewAccountContext(ch.GetMomentumStore(ma), ch.GetAccountStore(acc, prev), n.Z.Consensus().FixedPillarReader(ma))
+	}); p != "" || ctx == nil {
+		return
+	}
+	type dest struct {
+		name string
+		a    types.Address
+		abi  *contractABI
+	}
+	var unknown types.Address
+	c.R.Read(unknown[:])
+	unknown[0] = 0 // a user address
+	dests := []dest{{"ordinary", handDest(acc, 0), nil}, {"zero-address", types.ZeroAddress, nil}, {"own-address", acc, nil}, {"unknown-address", unknown, nil}}
+	for i := range allContractABIs {
+		dests = append(dests, dest{"embedded-" + embeddedNames[allContractABIs[i].addr][2:], allContractABIs[i].addr, &allContractABIs[i]})
+	}
+	for _, typ := range []string{"send", "recv"} {
+		for _, d := range dests {
+			lens := handDataLens
+			if d.abi != nil {
+				lens = []int{handDataLens[c.R.Intn(len(handDataLens))]} // one tail length per contract
+			}
+			for _, dl := range lens {
+				b := &nom.AccountBlock{Version: 1, ChainIdentifier: ch.ChainIdentifier(), Address: acc, Height: prev.Height + 1, PreviousHash: prev.Hash,
+					MomentumAcknowledged: ma, Amount: big.NewInt(0), ToAddress: d.a, BlockType: nom.BlockTypeUserSend}
+				if typ == "recv" {
+					b.BlockType = nom.BlockTypeUserReceive
+					c.R.Read(b.FromBlockHash[:])
+					if c.R.Intn(2) == 0 {
+						b.ToAddress = types.ZeroAddress // the well-formed receive
+					}
+				}
+				b.Data = make([]byte, dl)
+				c.R.Read(b.Data)
+				if d.abi != nil {
+					names := sortedMethodNames(d.abi.abi)
+					if len(names) == 0 {
+						continue
+					}
+					m := d.abi.abi.Methods[names[c.R.Intn(len(names))]]
+					b.Data = append(append([]byte{}, m.Id()...), b.Data...)
+				}
+				var real uint64
+				var rerr error
+				if p := safely(func() { real, rerr = vm.GetBasePlasmaForAccountBlock(ctx, b) }); p != "" {
+					pr.fail("C12: GetBasePlasmaForAccountBlock panicked for a %s block to %s (%s) with %d data bytes: %s", typ, d.name, addrName(b.ToAddress), len(b.Data), firstLine300(p))
+					continue
+				}
+				own, kind := ownBaseCost(n, b, ma)
+				if kind == "embedded-unknown" {
+					c.Hit("base-matrix-method-not-under-this-regime")
+					continue
+				}
+				mc := "-"
+				if kind == "embedded" {
+					mc = fmt.Sprint(own)
+				}
+				obs := ""
+				switch {
+				case rerr == nil:
+					obs = fmt.Sprintf("ok %d", real)
+				case rerr == verifier.ErrABDataTooBig:
+					obs = "too-big"
+				default:
+					c.Hit("base-matrix-other-error")
+					continue
+				}
+				c.Emit("plasma-base %s %s %d | %s", typ, mc, len(b.Data), obs)
+				c.Hit("base-matrix:" + typ + ":" + kind)
+				c.Hit("base-matrix-dest:" + d.name)
+				if rerr == nil && real != own {
+					pr.fail("C12: the node prices a user %s block of %s addressed to %s (%s) that carries %d data bytes [%s] at %d plasma (vm.GetBasePlasmaForAccountBlock); the base cost of its type, data length and called method is %d: a block of this shape is accepted with total plasma %d",
+						typ, addrName(acc), d.name, addrName(b.ToAddress), len(b.Data), kind, real, own, real)
+				}
+			}
+		}
+	}
 }
 
 // hand tries one (PoW choice, fused choice) for acc; returns true if the block was accepted (the frontier moved)
@@ -320,6 +474,15 @@ func (pr *plasmaRun) hand(acc types.Address, kind int, pc powChoice, fusedName s
 	c.Hit(fmt.Sprintf("hand:%s:%s:%s", pc.work, state, v))
 	if v == "other" {
 		c.Hit("hand-other-error")
+		return false
+	}
+	if baseKind == "send" && len(b.Data) > constants.MaxDataLength {
+		// data above the 16 KiB limit has no base cost (the plasma rule is not reached): the block must never be accepted
+		c.Hit("hand-data-too-big-" + v)
+		if err == nil {
+			pr.fail("C12: a hand-built send of %s to %s with %d data bytes (limit %d), FusedPlasma=%d, was accepted", addrName(acc), addrName(b.ToAddress), len(b.Data), constants.MaxDataLength, b.FusedPlasma)
+			return true
+		}
 		return false
 	}
 	if d != 0 {
